@@ -25,6 +25,10 @@ impl<'a> LuaGen<'a> {
         if r.chance(1, 5) {
             names.push("_u");
         }
+        if r.chance(1, 5) {
+            // declared explicitly (local, parameter, loop variable), used as a method's base, and implicit in methods
+            names.push("self");
+        }
         LuaGen {
             r,
             names,
@@ -94,7 +98,7 @@ impl<'a> LuaGen<'a> {
                 format!("{{ {} }}", fs.join(", "))
             }
             7 => {
-                if *self.in_vararg_fn.last().unwrap() || self.r.chance(1, 4) {
+                if *self.in_vararg_fn.last().unwrap() || self.r.chance(1, 2) {
                     self.note("vararg");
                     "...".to_string()
                 } else {
@@ -206,9 +210,15 @@ impl<'a> LuaGen<'a> {
                     self.note("assign-surplus");
                 }
                 let vs: Vec<String> = (0..nv)
-                    .map(|_| match self.r.below(5) {
+                    .map(|_| match self.r.below(6) {
                         0 => format!("{}.{}", self.any_name(), self.r.pick(&["f", "x"])),
                         1 => format!("{}[{}]", self.any_name(), self.expr(2)),
+                        5 => match self.r.below(3) {
+                            // a parenthesised prefix: the target is not a name, the values are read all the same
+                            0 => format!("({} or {})[{}]", self.any_name(), self.any_name(), self.expr(2)),
+                            1 => format!("({}).{}", self.any_name(), self.r.pick(&["f", "x"])),
+                            _ => format!("({}.f)[1]", self.any_name()),
+                        },
                         _ => {
                             if self.r.chance(1, 3) {
                                 self.note("global-assign");
@@ -295,7 +305,11 @@ impl<'a> LuaGen<'a> {
                     }
                     2 => {
                         self.note("method-decl");
-                        format!("{}:{}", self.any_name(), self.r.pick(&["m", "f"]))
+                        if self.r.chance(1, 3) {
+                            format!("{}.{}:{}", self.any_name(), self.r.pick(&["f", "g"]), self.r.pick(&["m", "f"]))
+                        } else {
+                            format!("{}:{}", self.any_name(), self.r.pick(&["m", "f"]))
+                        }
                     }
                     _ => {
                         self.note("function-decl");
